@@ -25,6 +25,7 @@ UNITS = {
     "u25_syncstate": {"verus": "specs/u25_syncstate.vt.rs"},
     "u26_skipper": {"verus": "specs/u26_skipper.vt.rs"},
     "u27_hydrate_list": {"verus": "specs/u27_hydrate_list.vt.rs"},
+    "u28_valuemeta": {"verus": "specs/u28_valuemeta.vt.rs"},
 }
 CHUNK = "rust/automerge/src/storage/chunk.rs"
 EXID = "rust/automerge/src/exid.rs"
@@ -262,7 +263,7 @@ PROPERTIES.update({
     "C15": {
         "level": "proof",
         "verus": [("u02_parse", "*"), ("u01_bloom", ["parse", "get_probes", "contains_hash", "add_hash", "set_bit"]), ("u04_ids", ["exid_to_opid", "op_cursor_to_opid", "new"]),
-                  ("u04c_codecs", ["try_from", "parse_0"]), ("u06v_hexane_str", "*"), ("u15_colids", ["try_next", "try_load", "new", "root", "from"]), ("u19_import", "*")],
+                  ("u04c_codecs", ["try_from", "parse_0"]), ("u06v_hexane_str", "*"), ("u15_colids", ["try_next", "try_load", "new", "root", "from"]), ("u19_import", "*"), ("u28_valuemeta", "*")],
         "kani": ["u04_changehash_try_from_slice", "u15_try_load_total", "u15_raw_read_bytes", "u17_from_raw_string_valid", "u02k_length_prefixed_total", "u02k_apply_n_total", "u06_codec_reads_agree", "u01_parse_wf_quick", "u01_parse_wf_thorough", "u01_query_total", "u03_header_parse_q", "u03_header_parse_t", "u03_chunktype_codes",
                  "u04_exid_try_from_total_q", "u04_exid_try_from_total_t", "u04_cursor_from_str_total_q",
                  "u05_flags_parse_bytes",
@@ -280,7 +281,7 @@ PROPERTIES.update({
     "C17": {
         "level": "proof",
         "verus": [("u02_parse", ["take_n", "take_1", "take_4", "take1", "take4", "rest", "take_rest", "leb128_u64", "leb128_i64", "leb128_u32", "nonzero_leb128_u64", "length_prefixed_bytes", "change_hash", "utf_8"]),
-                  ("u01_bloom", ["parse", "default", "get_probes", "contains_hash", "add_hash"])],
+                  ("u01_bloom", ["parse", "default", "get_probes", "contains_hash", "add_hash"]), ("u28_valuemeta", "*")],
         "kani": ["u01_parse_wf_quick", "u01_parse_wf_thorough", "u01_bits_capacity_total", "u06_string_unpack_huge_len", "u02k_length_prefixed_total", "u02k_apply_n_total",
                  "u01_add_contains_3x0", "u01_query_total"],
         "not_under_contract": ["ChangeCollector / OpEncoderStrategy::try_new (OutOfMemory guard)", "document reconstruct", "parse::length_prefixed(g) / apply_n with generic g (allocation sized by the wire count)",
